@@ -189,19 +189,50 @@ def rule_M1(ctx):
             "contexts (later arrival wins) is lost" % (op, ".".join(hot[0])), line=node.lineno))
     # obligations: every place where a ctxs.in list is read into a merge / copied
     prog = ctx.prog
-    gtc = prog.function("conducting.WorkflowConductor.get_task_context")
-    loops = [x for x in ast.walk(gtc.node) if isinstance(x, ast.For)]
-    for lp in loops:
-        inst = (gtc.qualname, norm_src(lp))
-        if isinstance(lp.iter, ast.Name) and lp.iter.id in gtc.params:
+    gtc0 = prog.function("conducting.WorkflowConductor.get_task_context")
+    idx_param = [p_ for p_ in gtc0.params if p_ not in ("self", "cls")]
+    if not idx_param:
+        raise AnalysisError("get_task_context has no index-list parameter")
+    # the merge loop is in get_task_context or in a function it hands the index list to
+    work, seen_, found_loops = [(gtc0, idx_param[0], 0)], set(), []
+    while work:
+        g, pname, depth = work.pop()
+        if (g.qualname, pname) in seen_ or depth > 3:
+            continue
+        seen_.add((g.qualname, pname))
+        for x in ast.walk(g.node):
+            if isinstance(x, ast.For) and any(callee_name(c) == "merge_dicts" for c in calls_in(x)):
+                found_loops.append((g, x, pname))
+        for c in calls_in(g.node):
+            callees = a.call_edges.get((g.qualname, id(c)), set())
+            for cq in callees:
+                h = prog.find_function(cq)
+                if h is None or cq.endswith("merge_dicts"):
+                    continue
+                hp = list(h.params)
+                off = 1 if hp and hp[0] in ("self", "cls") and isinstance(c.func, ast.Attribute) else 0
+                for i_, arg in enumerate(c.args):
+                    if isinstance(arg, ast.Name) and arg.id == pname and i_ + off < len(hp):
+                        work.append((h, hp[i_ + off], depth + 1))
+                for kw in c.keywords:
+                    if isinstance(kw.value, ast.Name) and kw.value.id == pname and kw.arg in hp:
+                        work.append((h, kw.arg, depth + 1))
+    for g, lp, pname in found_loops:
+        inst = (g.qualname, norm_src(lp))
+        it = lp.iter
+        # for i in idxs  /  for i in idxs[1:]  (the first entry having been taken as the base)
+        base = it.value if isinstance(it, ast.Subscript) and isinstance(it.slice, ast.Slice) \
+            and it.slice.step is None else it
+        if isinstance(base, ast.Name) and base.id == pname:
             res.holds(inst, "iterates the index list as given")
         else:
             res.violated(inst, Finding(
-                "M1", gtc.file, gtc.qualname, norm_src(lp),
-                "get_task_context does not iterate the index list as given (%s): merge order is "
-                "no longer arrival order" % unparse(lp.iter), line=lp.lineno))
-    if not loops:
-        raise AnalysisError("get_task_context has no merge loop")
+                "M1", g.file, g.qualname, norm_src(lp),
+                "%s does not iterate the index list as given (%s): merge order is no longer "
+                "arrival order" % (g.name, unparse(lp.iter)), line=lp.lineno))
+    if not found_loops:
+        raise AnalysisError("no loop that merges the context index list found from "
+                            "get_task_context")
     for e in effects_of(ctx):
         if e.path[-2:] == ("ctxs", "in") or e.path[-3:-1] == ("ctxs", "in"):
             inst = ("write", ".".join(e.path), e.op, e.func.qualname, norm_src(e.node))
@@ -394,6 +425,13 @@ def rule_S1c(ctx):
                         if cn == "deserialize":
                             ok = "delegated to %s" % unparse(anc.func)
                             break
+                        gp_ = getattr(anc, "_parent", None)
+                        if cn in ("dict", "copy") and isinstance(gp_, ast.Assign) and \
+                                gp_.value is anc and len(gp_.targets) == 1 and isinstance(
+                                gp_.targets[0], ast.Name) and depth < 3:
+                            work.append((gp_.targets[0].id, depth + 1))
+                            ok = "part of a shallow copy bound to local %s" % gp_.targets[0].id
+                            break
                     anc = getattr(anc, "_parent", None)
                     hops += 1
                 if ok is None and keys and keys[-1] in SCALAR_KEYS:
@@ -401,6 +439,14 @@ def rule_S1c(ctx):
                 if ok is None and isinstance(getattr(top, "_parent", None), ast.Compare):
                     ok = "compared only"
                 par = getattr(top, "_parent", None)
+                # a shallow re-wrapping of the document is still the document:  d = dict(data, ..)
+                if ok is None and isinstance(par, ast.Call) and callee_name(par) in (
+                        "dict", "copy") and par.args and par.args[0] is top:
+                    gp = getattr(par, "_parent", None)
+                    if isinstance(gp, ast.Assign) and gp.value is par and len(gp.targets) == 1 \
+                            and isinstance(gp.targets[0], ast.Name) and depth < 3:
+                        work.append((gp.targets[0].id, depth + 1))
+                        ok = "shallow copy bound to local %s" % gp.targets[0].id
                 if ok is None and depth < 3 and isinstance(par, ast.Assign) and par.value is top \
                         and len(par.targets) == 1 and isinstance(par.targets[0], ast.Name):
                     # a local alias of a part of the document: judged by its own uses
